@@ -1,5 +1,5 @@
 """C13 - spans and positions faithfully locate every tree node in the input."""
-from . import mir, rt, gen
+from . import mir, rt, gen, idiom
 from .mir import Sim, TermBuilder, callee, fmt, has_call, has_field
 from .rt import is_call, calls, idx
 
@@ -24,40 +24,113 @@ def ctx_position(t):
     return is_call(t, "Context::position")
 
 
-def lr_empty_span_kind(F):
-    """('end'|'start'|'position'|other, fn) for the zero-width span of an empty LR reduction"""
+def _anchor_kind(x):
+    """where a zero-width span sits: 'end' / 'start' of a Context::span() value, 'position', or the printed term"""
+    if isinstance(x, tuple) and x[0] == "field" and x[2] in ("end", "start") and is_call(x[1], "Context::span"):
+        return x[2]
+    if ctx_position(x):
+        return "position"
+    return fmt(x)[:60]
+
+
+def classify_span(sp, coll_pred):
+    """('child', ok_start, ok_end) when the span is built from elements of the collection (first/last in any spelling),
+    ('empty', (start kind, end kind)) otherwise"""
+    st, en = sp["start"], sp["end"]
+    def of_elem(x, which, finder):
+        return isinstance(x, tuple) and x[0] == "field" and x[2] == which and finder(x[1], coll_pred) is not None \
+            and (has_field(x[1], "span") or has_call(x[1], "::span"))
+    touches = any(idiom.find_first_of(x, coll_pred) is not None or idiom.find_last_of(x, coll_pred) is not None for x in (st, en))
+    if touches:
+        return ("child", of_elem(st, "start", idiom.find_first_of), of_elem(en, "end", idiom.find_last_of))
+    return ("empty", (_anchor_kind(st), _anchor_kind(en)))
+
+
+def lr_span_forms(F):
+    """[(emptiness, classified span, raw span)] over the return paths of ParseStack::pop_states"""
     f = F.one(r"^rustemo::lr::parser::ParseStack::<[^>]*>::pop_states$")
+    popped = lambda c: has_call(c, "split_off")
+    def extra(t, v):
+        # `states == 0`: the popped part has `states` elements
+        if isinstance(t, tuple) and t[0] == "bin" and v in (0, 1) and ("param", "states") in (t[2], t[3]) and ("const", 0) in (t[2], t[3]):
+            if t[1] in ("Eq", "Ne"):
+                return (v == 1) == (t[1] == "Eq")
+            if t[1] in ("Gt", "Lt"):      # states > 0 / 0 < states
+                return v == 0
+        return None
+    forms = []
     for p in Sim(f, F).run():
-        zero = [v for t, v in p.cond if t[0] == "bin" and t[1] == "Eq" and t[2] == ("param", "states") and t[3] == ("const", 0)]
-        if zero and zero[0] == 1:
-            r = [e[1] for e in p.events if e[0] == "return"][0]
-            sp = span_agg(dict(r[2])["1"]) if r[0] == "agg" else None
-            if not sp:
-                return ("?", "?"), f
-            def kind(x):
-                return "end" if ctx_span_end(x) else "start" if ctx_span_start(x) else "position" if ctx_position(x) else fmt(x)[:60]
-            return (kind(sp["start"]), kind(sp["end"])), f
-    return None, f
+        r = [e[1] for e in p.events if e[0] == "return"]
+        if not r or r[0][0] != "agg":
+            continue
+        sp = span_agg(dict(r[0][2]).get("1"))
+        if not sp:
+            continue
+        em = idiom.path_emptiness(p, popped, extra)
+        if em == "contradiction":
+            continue
+        forms.append((em, classify_span(sp, popped), sp))
+    return forms, f
 
 
-def glr_empty_span_kind(F):
+def glr_span_forms(F):
+    """the same over the paths of the GLR reducer that build an SPPFTree::NonTerm"""
     f, paths = rt.cache(F).paths(rt.GLR + "reducer$")
+    parents = lambda c: has_field(c, "parents")
+    forms = []
+    seen = set()
     for p in paths:
-        emp = [v for t, v in p.cond if is_call(t, "VecDeque::<T, A>::is_empty") and has_field(t, "parents")]
-        if emp and emp[0] == 1:
-            for e in p.events:
-                if e[0] == "set" and e[1] == "span":
-                    sp = span_agg(e[2])
-                    if sp:
-                        def kind(x):
-                            if isinstance(x, tuple) and x[0] == "field" and x[2] in ("end", "start") and is_call(x[1], "Context::span") \
-                                    and has_field(x[1], "root_head"):
-                                return x[2]
-                            if is_call(x, "Context::position"):
-                                return "position"
-                            return fmt(x)[:60]
-                        return (kind(sp["start"]), kind(sp["end"])), f
-    return None, f
+        node = None
+        for e in p.events:
+            for x in mir.walk(e):
+                if isinstance(x, tuple) and x[0] == "agg" and x[1].endswith("SPPFTree::NonTerm"):
+                    node = x
+                    break
+            if node:
+                break
+        if not node:
+            continue
+        data = dict(node[2]).get("data")
+        sp = span_agg(dict(data[2]).get("span")) if isinstance(data, tuple) and data[0] == "agg" else None
+        if not sp:
+            continue
+        em = idiom.path_emptiness(p, parents)
+        if em == "contradiction":
+            continue
+        key = (em, repr(sp))
+        if key in seen:
+            continue
+        seen.add(key)
+        forms.append((em, classify_span(sp, parents), sp))
+    return forms, f
+
+
+def empty_kind(forms):
+    ks = {c[1] for em, c, sp in forms if c[0] == "empty" and em is not False}
+    return sorted(ks)[0] if len(ks) == 1 else (None if not ks else ("mixed", "mixed"))
+
+
+def check_forms(res, rid_child, rid_empty, forms, f, who, keyp):
+    nchild = nempty = 0
+    done = set()
+    for em, c, sp in forms:
+        if c[0] == "child":
+            nchild += 1
+            if "child" in done:
+                continue
+            done.add("child")
+            for part, ok, exp in (("start", c[1], "the start of its first child"), ("end", c[2], "the end of its last child")):
+                if ok:
+                    res.ok(rid_child, keyp + part, f.loc())
+                else:
+                    res.violation(rid_child, keyp + part, "%s: a reduced node %ss at %s, expected %s" % (
+                        who, part, fmt(sp[part])[:140], exp), f.loc())
+        else:
+            nempty += 1
+            if em is False:
+                res.violation(rid_child, keyp + "start", "%s: a non-empty reduction gets the span [%s, %s] that does not come "
+                              "from its children" % (who, c[1][0], c[1][1]), f.loc())
+    return nchild, nempty
 
 
 def r_lr(F, res):
@@ -95,30 +168,13 @@ def r_lr(F, res):
     rid2 = res.rule("C13-R2", "LR reduce: span runs from the start of the first popped item to the end of the last", floor=2)
     rid3 = res.rule("C13-R3", "LR empty reduction: zero-width span at the end of the current span (or the current position), "
                     "never before the preceding token", floor=1)
-    g = F.one(r"^rustemo::lr::parser::ParseStack::<[^>]*>::pop_states$")
-    for p in Sim(g, F).run():
-        zero = [v for t, v in p.cond if t[0] == "bin" and t[1] == "Eq" and t[2] == ("param", "states") and t[3] == ("const", 0)]
-        r = [e[1] for e in p.events if e[0] == "return"]
-        if not zero or not r:
-            continue
-        sp = span_agg(dict(r[0][2])["1"])
-        if zero[0] == 0 and sp:
-            st, en = sp["start"], sp["end"]
-            ok_s = st[0] == "field" and st[2] == "start" and st[1][0] == "field" and st[1][2] == "span" and \
-                isinstance(st[1][1], tuple) and (st[1][1][0] == "index" and st[1][1][2] == ("const", 0) or is_call(st[1][1], "index") and st[1][1][2][1] == ("const", 0)) \
-                and has_call(st, "split_off")
-            ok_e = en[0] == "field" and en[2] == "end" and en[1][0] == "field" and en[1][2] == "span" and has_call(en, "::last") and has_call(en, "split_off")
-            if ok_s:
-                res.ok(rid2, "reduce/start", g.loc())
-            else:
-                res.violation(rid2, "reduce/start", "a reduced node starts at %s, expected the start of the first popped item" % fmt(st)[:140], g.loc())
-            if ok_e:
-                res.ok(rid2, "reduce/end", g.loc())
-            else:
-                res.violation(rid2, "reduce/end", "a reduced node ends at %s, expected the end of the last popped item" % fmt(en)[:140], g.loc())
-    k, _ = lr_empty_span_kind(F)
+    forms, g = lr_span_forms(F)
+    nchild, nempty = check_forms(res, rid2, rid3, forms, g, "LR reduce", "reduce/")
+    if not nchild:
+        res.anchor_lost(rid2, "no return path of pop_states builds the span from the popped items", g.loc())
+    k = empty_kind(forms)
     if k is None:
-        res.anchor_lost(rid3, "states == 0 path of pop_states not found", g.loc())
+        res.anchor_lost(rid3, "empty-reduction path of pop_states not found", g.loc())
     elif k[0] == k[1] and k[0] in ("end", "position"):
         res.ok(rid3, "lr-empty-span", g.loc(), "zero width at context.span().%s" % k[0] if k[0] == "end" else "zero width at context.position()")
     else:
@@ -132,12 +188,13 @@ def r_lr(F, res):
             ss = [i for i, e in enumerate(p.events) if e[0] == "call" and "Context::set_span" in e[1]]
             ra = idx(p, "LRBuilder::reduce_action")
             ps = idx(p, "ParseStack::<S, I, C, TK>::pop_states")
-            saved = [i for i, e in enumerate(p.events) if e[0] == "set" and e[1] == "context_span"]
             ok = len(ss) >= 2 and ra is not None and ss[0] < ra < ss[-1]
             first = p.events[ss[0]][2][1] if ss else None
             last = p.events[ss[-1]][2][1] if ss else None
             ok = ok and isinstance(first, tuple) and first[0] == "field" and first[2] == "1" and is_call(first[1], "pop_states")
-            ok = ok and is_call(last, "Context::span") and saved and saved[0] < ss[0]
+            # the restored value is the very context.span() value read before the reduced span was put in (same receiver epoch)
+            reads_before = [e[5] for e in p.events[:ss[0]] if e[0] == "call" and mir.call_matches(e[1], "Context::span")] if ss else []
+            ok = ok and is_call(last, "Context::span") and last in reads_before
             if ok:
                 res.ok(rid4, "reduce/span-bracket", where)
             else:
@@ -230,39 +287,11 @@ def r_glr(F, res):
                 else:
                     res.violation(rid, key, "GLR shifter: " + msg, f.loc())
             break
-    g, rpaths = rt.cache(F).paths(rt.GLR + "reducer$")
-    done = False
-    for p in rpaths:
-        emp = [v for t, v in p.cond if is_call(t, "VecDeque::<T, A>::is_empty") and has_field(t, "parents")]
-        if emp and emp[0] == 0:
-            for e in p.events:
-                if e[0] == "set" and e[1] == "span":
-                    sp = span_agg(e[2])
-                    if not sp:
-                        continue
-                    st, en = sp["start"], sp["end"]
-                    def child(x, which):
-                        return x[0] == "field" and x[2] == which and is_call(x[1], "Context") and has_field(x[1], "possibilities") \
-                            and has_field(x[1], "parents")
-                    first = mir.contains(st, lambda x: isinstance(x, tuple) and x[0] in ("index", "call") and ("const", 0) in (x[2] if x[0] == "index" else x[2][1:2]))
-                    last = mir.contains(en, lambda x: isinstance(x, tuple) and x[0] == "bin" and x[1] == "Sub" and has_call(x[2], "len") and x[3] == ("const", 1))
-                    ok_s = child(st, "start") and first
-                    ok_e = child(en, "end") and last
-                    if ok_s:
-                        res.ok(rid, "reducer/start", g.loc())
-                    else:
-                        res.violation(rid, "reducer/start", "a GLR node starts at %s, expected the start of its first child (parents[0])" % fmt(st)[:160], g.loc())
-                    if ok_e:
-                        res.ok(rid, "reducer/end", g.loc())
-                    else:
-                        res.violation(rid, "reducer/end", "a GLR node ends at %s, expected the end of its last child (parents[len-1])" % fmt(en)[:160], g.loc())
-                    done = True
-                    break
-        if done:
-            break
-    if not done:
+    forms, g = glr_span_forms(F)
+    nchild, nempty = check_forms(res, rid, rid, forms, g, "GLR reducer", "reducer/")
+    if not nchild:
         res.anchor_lost(rid, "non-empty span construction in the GLR reducer not found", g.loc())
-    k, _ = glr_empty_span_kind(F)
+    k = empty_kind(forms)
     if k is None:
         res.anchor_lost(rid, "empty span construction in the GLR reducer not found", g.loc())
     elif k == ("end", "end"):
@@ -271,7 +300,8 @@ def r_glr(F, res):
         res.violation(rid, "reducer/empty-span", "an empty GLR reduction gets the span [%s, %s] of the root head" % k, g.loc())
     # sibling rule S1
     rid_s = res.rule("C13-S1", "LR and GLR anchor the span of an empty nonterminal at the same end of the current span", floor=1)
-    kl, fl = lr_empty_span_kind(F)
+    lforms, fl = lr_span_forms(F)
+    kl = empty_kind(lforms)
     if kl is not None and k is not None:
         if kl == k:
             res.ok(rid_s, "empty-span-siblings", None, "both %s" % (kl,))
@@ -322,7 +352,13 @@ def r_bytes(F, res):
         r = [e[1] for e in p.events if e[0] == "return"]
         if r and r[0][0] == "agg":
             pos = dict(r[0][2]).get("pos")
-            if pos and pos[0] == "bin" and pos[1] == "Add" and has_field(pos[2], "pos") and is_call(pos[3], "str>::len"):
+            def byte_len_of_self(x):
+                c = idiom.len_of(x)
+                while is_call(c, "::as_bytes") or is_call(c, "::bytes"):
+                    c = c[2][0]
+                return c == ("param", "self")
+            if pos and pos[0] == "bin" and pos[1] == "Add" and (
+                    has_field(pos[2], "pos") and byte_len_of_self(pos[3]) or has_field(pos[3], "pos") and byte_len_of_self(pos[2])):
                 res.ok(rid, "position-after/offset", f.loc(), "pos + self.len()")
             else:
                 res.violation(rid, "position-after/offset", "the new offset is %s, expected position.pos + self.len()" % (fmt(pos)[:100] if pos else None), f.loc())
